@@ -200,6 +200,29 @@ def rule_c(ctx):
         ctx.ob("C09.c/rebase-first-when-into-descendant", root, guard and bool(rb),
                "rebase_descendants_with_options only on the `a source is an ancestor of the destination` edge" if guard else
                "descendants are not rebased (or unconditionally rebased) before squashing into a descendant")
+        # the destination's new tree is that merge on every path (no shortcut that takes some other tree)
+        sts = [c for c in b.calls if not c.cleanup and name_matches(c.res or c.decl or "", "re:CommitBuilder.*::set_tree$")]
+        n_dest = 0
+        for st in sts:
+            recv = sl.call_arg(st, 0)
+            if not any(name_matches(x[1], "re:MutableRepo::rewrite_commit$") for x in term_calls(recv)):
+                continue
+            if not any(w[0] == "field" and w[3] in ("destination",) for w in walk(recv)) and "destination" not in show(recv):
+                continue
+            n_dest += 1
+            targ = sl.call_arg(st, 1)
+            bad_alts = []
+            for a in alts(targ):
+                names_ = {x[1] for x in term_calls(a)}
+                if not any(name_matches(n_, "re:MergedTree::merge$") for n_ in names_) or \
+                        not any(name_matches(n_, "re:Merge::<T>::from_diffs$|::from_diffs$") for n_ in names_):
+                    bad_alts.append(show(a)[:90])
+            ctx.ob("C09.c/destination-tree-is-always-the-merge", root, not bad_alts,
+                   "destination.set_tree(merge(from_diffs(destination tree, source diffs))) on every path" if not bad_alts else
+                   f"on some path the destination takes a tree that is not merge(destination, source diffs): {bad_alts[0]} - for a "
+                   f"source with other parents (a merge commit) their changes are applied twice and every descendant changes",
+                   where=st.where())
+        ctx.anchor("C09.c", "set_tree on the rewritten destination", n_dest, 1)
         before = all(m.bb in b.after(r.bb) and r.bb not in b.after(m.bb) for r in rb)
         ctx.ob("C09.c/rebase-precedes-destination-merge", root, before and bool(rb),
                "the descendant rebase precedes the destination merge" if before else
